@@ -1,5 +1,5 @@
 import Zrnt.Beacon.Block
-import Zrnt.Beacon.Spec.Helpers
+import Zrnt.Beacon.Spec.Pure
 /-!
 # Specification layer `S`, theorem-facing form of block operations with loops (pure cores)
 
@@ -55,5 +55,69 @@ def process_withdrawals_pure (cfg : Config) (s : State) (expected payload_withdr
     else
       some { s with next_withdrawal_validator_index :=
         (s.next_withdrawal_validator_index + cfg.MAX_VALIDATORS_PER_WITHDRAWALS_SWEEP) % s.validators.length }
+
+/-! ## sync aggregate -/
+
+/-- The reward loop of `process_sync_aggregate` on a bare balance list, `proposer` being
+`get_beacon_proposer_index(state)` (it does not depend on balances: `proposer_frame`):
+```python
+    for participant_index, participation_bit in zip(committee_indices, sync_aggregate.sync_committee_bits):
+        if participation_bit:
+            increase_balance(state, participant_index, participant_reward)
+            increase_balance(state, get_beacon_proposer_index(state), proposer_reward)
+        else:
+            decrease_balance(state, participant_index, participant_reward)
+``` -/
+def sync_apply_pure (participant_reward proposer_reward proposer : Nat) : List Nat → List Bool → List Nat → Option (List Nat)
+  | [], _, b => some b
+  | _ :: _, [], b => some b
+  | vi :: rest, bit :: bits, b =>
+    match b[vi]? with
+    | none => none
+    | some x =>
+      if bit then
+        let b := b.set vi (x + participant_reward)
+        match b[proposer]? with
+        | none => none
+        | some y => sync_apply_pure participant_reward proposer_reward proposer rest bits (b.set proposer (y + proposer_reward))
+      else
+        sync_apply_pure participant_reward proposer_reward proposer rest bits
+          (b.set vi (if participant_reward > x then 0 else x - participant_reward))
+
+/-- `(participant_reward, proposer_reward)` of `process_sync_aggregate` for total active balance `T` -/
+def sync_rewards (cfg : Config) (T : Nat) : Nat × Nat :=
+  let total_active_increments := T / cfg.EFFECTIVE_BALANCE_INCREMENT
+  let base_reward_per_increment := cfg.EFFECTIVE_BALANCE_INCREMENT * cfg.BASE_REWARD_FACTOR / integer_squareroot T
+  let total_base_rewards := base_reward_per_increment * total_active_increments
+  let max_participant_rewards := total_base_rewards * SYNC_REWARD_WEIGHT / WEIGHT_DENOMINATOR / cfg.SLOTS_PER_EPOCH
+  let participant_reward := max_participant_rewards / cfg.SYNC_COMMITTEE_SIZE
+  (participant_reward, participant_reward * PROPOSER_WEIGHT / (WEIGHT_DENOMINATOR - PROPOSER_WEIGHT))
+
+/-- registry index of a pubkey (`all_pubkeys.index(pubkey)`, `none` = ValueError) -/
+def pubkey_index (s : State) (pk : Bytes) : Option Nat :=
+  let i := (s.validators.map (·.pubkey)).findIdx (· = pk)
+  if i < s.validators.length then some i else none
+
+/-- `process_sync_aggregate` in `Nat`, given `T = get_total_active_balance(state)` and
+`p = get_beacon_proposer_index(state)` (`none` = rejected) -/
+def process_sync_aggregate_pure (cfg : Config) (s : State) (agg : SyncAggregate) (T p : Nat) : Option State :=
+  match s.current_sync_committee with
+  | none => none
+  | some committee =>
+    let bits := agg.sync_committee_bits.take cfg.SYNC_COMMITTEE_SIZE
+    if bits.length ≠ cfg.SYNC_COMMITTEE_SIZE then none else
+    let previous_slot := max s.slot 1 - 1
+    if ¬ (previous_slot < s.slot ∧ s.slot ≤ previous_slot + cfg.SLOTS_PER_HISTORICAL_ROOT) then none else
+    if cfg.SLOTS_PER_HISTORICAL_ROOT = 0 then none else
+    match s.block_roots[previous_slot % cfg.SLOTS_PER_HISTORICAL_ROOT]? with
+    | none => none
+    | some _ =>
+      if !agg.sig_ok then none else
+      if cfg.EFFECTIVE_BALANCE_INCREMENT = 0 ∨ cfg.SLOTS_PER_EPOCH = 0 ∨ cfg.SYNC_COMMITTEE_SIZE = 0 ∨ integer_squareroot T = 0 then none else
+      let r := sync_rewards cfg T
+      match committee.pubkeys.mapM (pubkey_index s) with
+      | none => none
+      | some committee_indices =>
+        (sync_apply_pure r.1 r.2 p committee_indices bits s.balances).map fun b => { s with balances := b }
 
 end Zrnt.Beacon.Block
